@@ -245,6 +245,10 @@ STAT_TYPES = {
 }
 
 
+def cfg_key_small(cfg):
+    return {k: cfg[k] for k in ('P', 'K', 'L', 'Tend', 'adaptive', 'restarting') if k in cfg}
+
+
 def check_stats(cur):
     from pySDC.helpers.stats_helper import filter_stats, get_sorted
 
@@ -274,15 +278,34 @@ def check_stats(cur):
         exp_acc.sort(key=lambda x: x[0])
         got = [(t, 0 if times_only else _val_bytes(v)) for t, v in get_sorted(stats, type=typ, recomputed=False, sortby='time')]
         if got != exp_acc:
-            cur.v(
-                'filtered_records',
-                type=typ,
-                n_got=len(got),
-                n_expected=len(exp_acc),
-                got_times=[t for t, _ in got],
-                expected_times=[t for t, _ in exp_acc],
-                values_differ=[i for i, (g, e) in enumerate(zip(got, exp_acc)) if g != e][:5],
-            )
+            # Recorded finding: a rejected and an accepted attempt END at the same time (typically both are cut at Tend)
+            # in different slots with the same restart count; the filter cannot tell their end-time keyed records apart
+            # and the rejected one survives.  Only a surplus that is exactly of this kind is attributed to it.
+            extra = list(got)
+            missing = []
+            for e in exp_acc:
+                if e in extra:
+                    extra.remove(e)
+                else:
+                    missing.append(e)
+            rejected = [a for a in exp_all if a not in acc]
+            explained = when == 'end' and not missing and bool(extra)
+            for t, v in extra:
+                twins = [r for r in rejected if key_time(r) == t and any(key_time(a) == t and a['pre']['riar'] == r['pre']['riar'] and a['slot'] != r['slot'] for a in acc)]
+                if not twins:
+                    explained = False
+            if explained:
+                cur.viol.append(({'kind': 'filtered_records', 'cause': 'rejected and accepted attempt end at the same time with equal restart count in different slots'}, {'type': typ, 'extra_times': [t for t, _ in extra], 'cfg': cfg_key_small(cur.cfg)}))
+            else:
+                cur.v(
+                    'filtered_records',
+                    type=typ,
+                    n_got=len(got),
+                    n_expected=len(exp_acc),
+                    got_times=[t for t, _ in got],
+                    expected_times=[t for t, _ in exp_acc],
+                    values_differ=[i for i, (g, e) in enumerate(zip(got, exp_acc)) if g != e][:5],
+                )
         # unfiltered: one record per attempt, no two attempts share a key
         raw = filter_stats(stats, type=typ)
         # every record's key carries the true time / slot / restart count (and iteration where the hook logs it) of an
@@ -295,6 +318,16 @@ def check_stats(cur):
         iters = {k.iter for k in raw.keys()} - {-1}
         if not iters <= {a['iter_at_post'] for a in exp_all}:
             cur.v('record_iter', type=typ, iters=sorted(iters))
+    # filtering with recomputed=False and fewer keys must give exactly the union of the per-type results
+    types = sorted(present - {'_recomputed'}, key=str)
+    for kw in ({}, {'level': 0}, {'process': 0}, {'iter': cur.cfg['K']}):
+        wide = filter_stats(stats, recomputed=False, **kw)
+        union = {}
+        for typ in types:
+            union.update(filter_stats(stats, type=typ, recomputed=False, **kw))
+        wide_keys = {k for k in wide if k.type != '_recomputed'}
+        if wide_keys != set(union):
+            cur.v('wide_filter_differs_from_per_type', filter=kw, only_per_type=sorted((str(k.type), k.time, k.process) for k in set(union) - wide_keys)[:6], only_wide=sorted((str(k.type), k.time, k.process) for k in wide_keys - set(union))[:6])
     # iteration-level records: residual_post_iteration per accepted step = one per iteration performed
     if 'residual_post_iteration' in present:
         got = get_sorted(stats, type='residual_post_iteration', recomputed=False, sortby='time')
